@@ -175,7 +175,9 @@ fn parse_unnamed_requirement<Url: UnnamedRequirementUrl>(
     cursor.eat_whitespace();
     if let Some((pos, char)) = cursor.next() {
         if marker.is_none() {
-            if let Some(given) = url.given() {
+            {
+                // Look at the text the URL was read from, up to where reading stopped.
+                let given = cursor.slice(0, requirement_end);
                 for c in [';', '#'] {
                     if given.ends_with(c) {
                         return Err(Pep508Error {
